@@ -14,17 +14,23 @@ export GOCACHE="${QV_GOCACHE:-/verif/.cache/go-build}"
 S="$(mktemp -d "${TMPDIR:-/tmp}/qvself.XXXXXX")"; trap 'rm -rf "$S"' EXIT
 rsync -a --exclude .git "${QV_REPO:-/repo}"/ "$S/qeep/"
 "$VERIF/bin/instrument" "$S/qeep" >/dev/null || exit 2
+rsync -a --exclude .git "${QV_REPO:-/repo}"/ "$S/qeep-dense/"
+"$VERIF/bin/instrument" -dense "$S/qeep-dense" >/dev/null || exit 2
 mkdir -p "$S/h" && rsync -a "$VERIF/harness/" "$S/h/" && cp "$VERIF/harness/go.mod.tmpl" "$S/h/go.mod" && cp "${QV_REPO:-/repo}/go.sum" "$S/h/go.sum"
 (cd "$S/h" && go build -trimpath -o "$S/runner" ./cmd/runner) || { echo "selftest: build failed"; exit 2; }
+mkdir -p "$S/hd" && rsync -a "$VERIF/harness/" "$S/hd/" && sed "s#=> ../qeep#=> ../qeep-dense#" "$VERIF/harness/go.mod.tmpl" > "$S/hd/go.mod" && cp "${QV_REPO:-/repo}/go.sum" "$S/hd/go.sum"
+(cd "$S/hd" && go build -trimpath -o "$S/runner-dense" ./cmd/runner) || { echo "selftest: dense build failed"; exit 2; }
 export QV_SITES="$S/qeep/zzsimhook/sites.tsv"
 rc=0
 echo "selftest: map iteration / sync.Map.Range in harness paths:"
 grep -n "range [a-zA-Z_.]*\(\[[^]]*\]\)*$\|\.Range(func" "$VERIF"/harness/sim/*.go "$VERIF"/harness/props/*.go | grep -v "sort\|// ok-map" | head -40
 for p in $PROPS; do
   ref=""
+  RUNNER="$S/runner"; SITES="$S/qeep/zzsimhook/sites.tsv"
+  if [ "$p" = C20 ]; then RUNNER="$S/runner-dense"; SITES="$S/qeep-dense/zzsimhook/sites.tsv"; fi
   for gmp in 1 4 16; do for rep in 1 2; do
     out="$S/$p.$gmp.$rep"
-    GOMAXPROCS=$gmp VERIF_SEED="${VERIF_SEED:-1}" "$S/runner" -prop "$p" -tier quick -seed "${VERIF_SEED:-1}" -hashes "$N" -known "$VERIF/known_findings.json" > "$out" 2>"$out.err" || { echo "selftest: $p runner failed"; cat "$out.err" | head; rc=2; }
+    QV_SITES="$SITES" GOMAXPROCS=$gmp VERIF_SEED="${VERIF_SEED:-1}" "$RUNNER" -prop "$p" -tier quick -seed "${VERIF_SEED:-1}" -hashes "$N" -known "$VERIF/known_findings.json" > "$out" 2>"$out.err" || { echo "selftest: $p runner failed"; cat "$out.err" | head; rc=2; }
     if [ -z "$ref" ]; then ref="$out"; elif ! cmp -s "$ref" "$out"; then echo "selftest: $p NOT deterministic (GOMAXPROCS=$gmp rep=$rep)"; diff "$ref" "$out" | head -6; rc=1; fi
   done; done
   echo "selftest: $p $(wc -l < "$ref") runs x 6 executions identical: $([ $rc -eq 0 ] && echo yes || echo NO)  violations-in-sample: $(awk 'NF>=6' "$ref" | wc -l) discards: $(awk '$5!="" && NF>=5 && $5 !~ /^[a-z-]*$/ {next} NF==5' "$ref" | wc -l)"
